@@ -96,7 +96,31 @@ func c06Msg(m *model.State, p, code string) model.Msg {
 
 var c06Alphabet = []string{"Wreg", "Wrec", "Wpur1", "Wpur2", "Breg", "Brec", "Bpur1", "Bpur2", "send"}
 
-func c06Cases(m *model.State, maxLen int) []c06Case {
+// c06Stale: fee schedules that are NOT in force in a base state but that the chain has seen (the
+// genesis schedule after a governance change; the schedule of a proposal that was rolled back): what a
+// fee check reading stale parameters would ask for.
+var c06Stale = map[string][][2]model.AnchorParams{
+	"fees-after-gov":        {{{FeeReg: 24, FeeRec: 2, FeePur: 3}, {FeeReg: 31, FeeRec: 5, FeePur: 7}}},
+	"fees-after-failed-gov": {{{FeeReg: 1, FeeRec: 1, FeePur: 1}, {FeeReg: 1, FeeRec: 1, FeePur: 1}}},
+}
+
+func staleFee(p [2]model.AnchorParams, mm model.Msg) *big.Int {
+	a := p[0]
+	if strings.HasPrefix(mm.Kind, "bcn.") {
+		a = p[1]
+	}
+	switch mm.Kind {
+	case model.WrkReg, model.BcnReg:
+		return model.U(a.FeeReg)
+	case model.WrkRec, model.BcnRec:
+		return model.U(a.FeeRec)
+	case model.WrkPur, model.BcnPur:
+		return new(big.Int).Mul(model.U(a.FeePur), model.U(mm.N))
+	}
+	return new(big.Int)
+}
+
+func c06Cases(name string, m *model.State, maxLen int) []c06Case {
 	var seqs [][]string
 	var rec func(cur []string)
 	rec = func(cur []string) {
@@ -149,6 +173,22 @@ func c06Cases(m *model.State, maxLen int) []c06Case {
 						fees = append(fees, f)
 					}
 				}
+				// the sum under every schedule that is not in force any more / never came into force
+				for _, st := range c06Stale[name] {
+					x := new(big.Int)
+					for _, mm := range msgs {
+						x.Add(x, staleFee(st, mm))
+					}
+					dup := x.Cmp(req) == 0
+					for _, o := range offers {
+						if o == x.String() {
+							dup = true
+						}
+					}
+					if !dup {
+						offers = append(offers, x.String())
+					}
+				}
 				for mask := 1; mask < (1<<len(fees))-1; mask++ {
 					x := new(big.Int)
 					for i, f := range fees {
@@ -179,6 +219,9 @@ func c06Cases(m *model.State, maxLen int) []c06Case {
 							f[mc.Tok] = "1"
 						}
 						for _, re := range []bool{false, true} {
+							if re && len(sq) > 2 {
+								continue // re-check mode: sequences of up to two messages
+							}
 							out = append(out, c06Case{Payer: p, Wrap: wrap, Seq: sq, Offered: off, Extra: extra, Recheck: re, tx: model.Tx{Msgs: tmsgs, Fee: f}, req: req})
 						}
 					}
@@ -232,7 +275,11 @@ func c06Extra(t Tier, ev *Evidence) []Violation {
 			}(i)
 		}
 		wg.Wait()
-		cases := c06Cases(execs[0].M, maxLen)
+		ml := maxLen
+		if _, stale := c06Stale[sc.Name]; stale {
+			ml = maxLen - 1 // the two base states about stale schedules use sequences one shorter
+		}
+		cases := c06Cases(sc.Name, execs[0].M, ml)
 		type res struct {
 			code uint32
 			log  string
@@ -371,7 +418,7 @@ func c06Extra(t Tier, ev *Evidence) []Violation {
 	ev.Coverage["admitted"] = admitted
 	ev.Coverage["outcomes"] = hist
 	ev.Coverage["exhaustive"] = exhaustive
-	ev.Coverage["rule"] = fmt.Sprintf("from %d base states (three payer classes: rich, liquid<fee<=liquid+locked, poor; four fee histories incl. one changed by governance and one where governance proposals changing the fees were rolled back): all message sequences of length <= %d over %v x wrapping {top, all nested in MsgExec, first nested} x offered {absent, required-1, required, required+1, every proper subset sum of the per-message fees} x extra denom {no, yes} x CheckTx mode {new, recheck}; one real CheckTx each; distinct = distinct (wrapping, sequence, offered-vs-required, payer, extra) classes", len(bases), maxLen, c06Alphabet)
+	ev.Coverage["rule"] = fmt.Sprintf("from %d base states (three payer classes: rich, liquid<fee<=liquid+locked, poor; four fee histories incl. one changed by governance and one where governance proposals changing the fees were rolled back): all message sequences of length <= %d (one shorter in the two base states with a changed / rolled-back schedule; <= 2 in re-check mode) over %v x wrapping {top, all nested in MsgExec, first nested} x offered {absent, required-1, required, required+1, every proper subset sum of the per-message fees, the sum under fee schedules that are no longer / never were in force} x extra denom {no, yes} x CheckTx mode {new, recheck}; one real CheckTx each; distinct = distinct (wrapping, sequence, offered-vs-required, payer, extra) classes", len(bases), maxLen, c06Alphabet)
 	ev.Coverage["samples"] = samples
 	if admitted == 0 {
 		fmt.Fprintln(os.Stderr, "WARNING C06: no transaction was admitted at all; the one-sided oracle is vacuous on this tree")
